@@ -8,11 +8,14 @@ import (
 	"go/token"
 	"go/types"
 	"runtime"
+	"strings"
 
 	"golang.org/x/tools/go/ssa"
 )
 
 type thread struct {
+	background bool    // started by a go statement of the code under test (not by vSpawn)
+	parent     *thread
 	id      int
 	wake    chan struct{}
 	done    bool
@@ -49,6 +52,12 @@ func (i *interpreter) spawn(fr *frame, site ssa.Instruction, fn value, args []va
 	if fr != nil && !i.isTargetFn(fr.fn) {
 		t.daemon = true
 	}
+	if _, isGo := site.(*ssa.Go); isGo {
+		// background goroutines (tickers, janitors) run eagerly to their first blocking point and
+		// are not scheduling alternatives
+		t.background = true
+		t.parent = s.cur
+	}
 	s.threads = append(s.threads, t)
 	s.nlive++
 	go func() {
@@ -84,6 +93,14 @@ func (i *interpreter) spawn(fr *frame, site ssa.Instruction, fn value, args []va
 		}
 		i.call(nil, token.NoPos, fn, args, site)
 	}()
+	if t.background {
+		cur := s.cur
+		s.cur = t
+		t.wake <- struct{}{}
+		<-cur.wake
+		i.checkKilledT(cur)
+		return
+	}
 	i.yield("go")
 }
 
@@ -120,13 +137,25 @@ type deadlock struct{}
 func (i *interpreter) pickNext(cur *thread, why string) *thread {
 	s := &i.sched
 	var cands []*thread
+	if cur != nil && cur.background && !cur.runnable() && cur.parent != nil && cur.parent.runnable() {
+		// a background thread that blocks hands control back to whoever started it
+		return cur.parent
+	}
 	if cur != nil && cur.runnable() {
 		cands = append(cands, cur)
 	}
+	var bg []*thread
 	for _, t := range s.threads {
 		if t != cur && t.runnable() {
-			cands = append(cands, t)
+			if t.background {
+				bg = append(bg, t)
+			} else {
+				cands = append(cands, t)
+			}
 		}
+	}
+	if len(cands) == 0 {
+		cands = bg
 	}
 	if len(cands) == 0 {
 		return nil
@@ -150,6 +179,9 @@ func (i *interpreter) yield(why string) {
 	}
 	cur := s.cur
 	i.checkKilled()
+	if s.enabled && !schedPoint(why) {
+		return
+	}
 	next := i.pickNext(cur, why)
 	if next == nil {
 		i.deadlocked()
@@ -162,7 +194,7 @@ func (i *interpreter) yield(why string) {
 	s.cur = next
 	next.wake <- struct{}{}
 	<-cur.wake
-	i.checkKilled()
+	i.checkKilledT(cur)
 }
 
 // blockUntil suspends the current thread until cond holds.
@@ -180,7 +212,7 @@ func (i *interpreter) blockUntil(cond func() bool, why string) {
 			if cur.daemon && cur.id != 0 && s.threads[0].done {
 				// a background thread with nothing to wait for: park until killed
 				<-cur.wake
-				i.checkKilled()
+				i.checkKilledT(cur)
 				continue
 			}
 			cur.canRun = nil
@@ -194,7 +226,7 @@ func (i *interpreter) blockUntil(cond func() bool, why string) {
 		s.cur = next
 		next.wake <- struct{}{}
 		<-cur.wake
-		i.checkKilled()
+		i.checkKilledT(cur)
 		if cond() {
 			break
 		}
@@ -202,12 +234,15 @@ func (i *interpreter) blockUntil(cond func() bool, why string) {
 	cur.canRun = nil
 }
 
-func (i *interpreter) checkKilled() {
+func (i *interpreter) checkKilled() { i.checkKilledT(i.sched.cur) }
+
+// checkKilledT is called by thread t after it has been woken (or before it yields).
+func (i *interpreter) checkKilledT(t *thread) {
 	s := &i.sched
-	if s.killing && s.cur.id != 0 {
+	if s.killing && t.id != 0 {
 		panic(abort(abExit, "killed"))
 	}
-	if s.cur.id == 0 && s.abortVal != nil {
+	if t.id == 0 && s.abortVal != nil {
 		v := s.abortVal
 		s.abortVal = nil
 		switch v := v.(type) {
@@ -468,4 +503,22 @@ func (fr *frame) doSelect(instr *ssa.Select) value {
 		}
 	}
 	return r
+}
+
+// schedPoint selects the yield points at which a context switch is explored: harness-visible
+// points (storage / locker / handler stubs, prefixed "h:"), channel operations, compare-and-swap
+// and thread start; a thread that cannot proceed (lock held, empty channel) always switches.
+// Lock acquisitions, unlocks and plain atomics are not switch points of their own: code between
+// two selected points runs atomically, which is the granularity the properties state
+// ("interleavings at storage / handler / lock boundaries" — a lock boundary is visible as the
+// blocking of the other thread).
+func schedPoint(why string) bool {
+	if strings.HasPrefix(why, "h:") || strings.HasPrefix(why, "chan") {
+		return true
+	}
+	switch why {
+	case "go", "select", "Gosched", "atomic-cas":
+		return true
+	}
+	return false
 }
